@@ -17,6 +17,10 @@ def obligations(tier):
             obs.extend(control_slices(o, steps + 1))
         else:
             obs.append(o)
+    for did, steps in (("D11", 4), ("D04", 4), ("D10", 4)):
+        o = ob("C03", "e2c.rerun." + did, "vt.harness.C03:quiescence", {"did": did, "steps": steps, "rerun": "default", "rerun_steps": 3, "rerun_order": False, "statuses": ["succeeded", "timeout"] if did == "D11" else ["succeeded", "failed"]}, timeout=900)
+        o["antecedents"] = ["c03_quiescent"]
+        obs.append(o)
     obs.append(ob("C03", "twin.D04", "vt.harness.C03:quiescence", {"did": "D04", "steps": 5, "twin": True}, timeout=60))
     for o in obs:
         if "e2c." in o["id"]:
